@@ -52,6 +52,10 @@ class Tap(object):
 
     def _push(self, formula, *a, **kw):
         self.pushes += 1
+        if self.kind in ("subst", "dagprint") and formula.is_quantifier():
+            # Substituter / SmtDagPrinter compute a quantifier in one piece when it is expanded and
+            # never push (True, n): counted as the expand + compute iterations of the model's leaf
+            self.computes += 1
         self._check()
         return self._orig_push(formula, *a, **kw)
 
